@@ -128,6 +128,28 @@ def blob_obj(c, f):
 # ------------------------------------------------------------------------------------------------ blob
 @REG.contract("dpapi_ng._blob.DPAPINGBlob.pack", props=["C06", "C01"])
 def blob_pack(c):
+    if not c.verifying:
+        s_ = c.param("self")
+        in_env = c.param("blob_in_envelope")
+        sf = s_.fields
+        pd = sf["protection_descriptor"]
+        if not isinstance(in_env, bool) or pd.cls.name != "SIDDescriptor":
+            c.inline_instead()
+        kidf = {k: v for k, v in sf["key_identifier"].fields.items() if k != "magic"}
+        f = {"kid": kidf, "sid": pd.fields["value"], "enc_cek": sf["enc_cek"], "enc_cek_algorithm": sf["enc_cek_algorithm"], "enc_cek_parameters": sf["enc_cek_parameters"],
+             "enc_content": sf["enc_content"], "enc_content_algorithm": sf["enc_content_algorithm"], "enc_content_parameters": sf["enc_content_parameters"]}
+        for k in ("enc_cek_algorithm", "enc_content_algorithm"):
+            if isinstance(f[k], SEnum):
+                f[k] = f[k].value
+        for k in ("enc_cek_parameters", "enc_content_parameters"):
+            if f[k] is not None:
+                c.requires(Z(c.len(f[k])) >= 1, k + "-absent-or-non-empty")
+        c.requires(kid_wf(c, kidf), "key-identifier-well-formed")
+        if in_env:
+            c.requires(Z(c.len(f["enc_content"])) >= 1, "in-envelope-content-non-empty")
+        c.returns(cms_layout(c, f, in_env))
+        c.raises_only(set())
+        return
     f = blob_fresh(c)
     c.param("self", T.const(blob_obj(c, f)))
     in_env = bool(c.ctx.branch(z3.Bool("blob_in_envelope")))
